@@ -32,7 +32,7 @@ STUB = ['dsim/vsim parser + elaborator as the judge of legality']
 ASSUMPTIONS = ['legality = the elaboration rules listed in dsim/vsim/README.md (declared once, not reserved, defined once, '
                'interfaces match, one driver per net bit); debatable rules are lenient']
 _KF = known_findings()
-PROBES = ['system_as_top', 'built_around_another_system', 'text_elaborated', 'reserved_name', 'gen_crash', 'regen_other', 'child_module', 'created_structures'] + [
+PROBES = ['shared_created_structures', 'system_as_top', 'built_around_another_system', 'text_elaborated', 'reserved_name', 'gen_crash', 'regen_other', 'child_module', 'created_structures'] + [
     p for p, tok in (('prefix_collision', 'prefix-collision-w'), ('clk_port', 'port-named-clk'), ('inst_port_collision', 'port-vs-instance-name'))
     if not _KF.excluded(tok)]      # naming faults of open findings are kept out of the campaign (their reproducers are replayed instead)
 
@@ -106,6 +106,9 @@ def gen(rs, tier, index):
                 faults.append('inst_port_collision')
     d['names'] = names
     d['inst_names'] = inst
+    if not inst and nf.random() < 0.12:
+        netlist.underscore_names(d, nf)
+        faults.append('underscore_names')
     fr = rs.get('faults')
     calls = []
     for _ in range(fr.randint(1, 4)):
@@ -116,13 +119,15 @@ def gen(rs, tier, index):
             calls.append({'c': 'hier', 'fresh': fr.random() < 0.5})
         elif r < 0.65:
             calls.append({'c': 'child', 'pick': fr.randrange(1 << 20), 'fresh': fr.random() < 0.5})
-        elif r < 0.78:
+        elif r < 0.72:
             calls.append({'c': 'hier_created', 'fresh': fr.random() < 0.5})
+        elif r < 0.78:
+            calls.append({'c': 'shared_created', 'pick': fr.randrange(1 << 20), 'pick2': fr.randrange(1 << 20)})
         elif r < 0.9:
             calls.append({'c': 'regen_other', 'top': 'hw' if fr.random() < 0.4 else 'dut'})
         else:
             calls.append({'c': 'gen_crash'})
-    if not any(c['c'] in ('hier', 'hier_created', 'child', 'hier_hw') for c in calls):
+    if not any(c['c'] in ('hier', 'hier_created', 'child', 'hier_hw', 'shared_created') for c in calls):
         calls.append({'c': 'hier', 'fresh': True})
     order = list(d['order'])
     rng.shuffle(order)
@@ -260,7 +265,20 @@ def run(scn, log, st):
         g = py4hw.VerilogGenerator(b.dut) if call.get('fresh') else gen_obj
         try:
             with quiet():
-                if c == 'hier_hw':
+                if c == 'shared_created':
+                    # the documented use of createdStructures: several generations (here for two sub-blocks) share one list so
+                    # that common modules are emitted once; the concatenated text must be one consistent design
+                    cands = [o for o in seams.walk(b.dut) if o is not b.dut and o.parent is b.dut and not g.isInlinable(o)]
+                    if len(cands) < 2:
+                        continue
+                    o1 = cands[call['pick'] % len(cands)]
+                    o2 = [o for o in cands if o is not o1][call['pick2'] % (len(cands) - 1)]
+                    shared = []
+                    text = g.getVerilogForHierarchy(obj=o1, noInstanceNumberInTopEntity=False, createdStructures=shared)
+                    text += '\n' + g.getVerilogForHierarchy(obj=o2, noInstanceNumberInTopEntity=False, createdStructures=shared)
+                    top, bb, what = py4hw.getVerilogModuleName(o1), (), 'two generations sharing one createdStructures list'
+                    st.probe('shared_created_structures')
+                elif c == 'hier_hw':
                     # the whole system as the top entity
                     text = py4hw.VerilogGenerator(b.hw).getVerilogForHierarchy()
                     top, bb, what = None, (), 'getVerilogForHierarchy() of the HWSystem'
